@@ -277,10 +277,18 @@ def decrypt_message(data, passphrase=None, seckeys=()):
                 via = 'passphrase'
             elif esk.tag == 1 and seckeys:
                 p = parse_pkesk(esk.body)
-                cand = [s for s in seckeys if s.pub.keyid == p.keyid or p.keyid == bytes(8)]
+                # a key id of zero is a wild card (RFC 4880 5.1): every secret key of the packet's algorithm is tried
+                cand = [s for s in seckeys if s.pub.keyid == p.keyid or (p.keyid == bytes(8) and (s.pub.alg == p.alg or {s.pub.alg, p.alg} <= set(keys.RSA_ALGS)))]
                 if not cand:
                     continue
-                symid, key = pkesk_decrypt(p, cand[0])
+                try:
+                    symid, key = pkesk_decrypt(p, cand[0])
+                except WireError:
+                    raise
+                except Exception as e:   # noqa  (a wild-card packet that is for somebody else: the primitive refuses the foreign ciphertext)
+                    if p.keyid != bytes(8):
+                        raise
+                    raise WireError('wild-card session key packet is not for this key: %r' % e)
                 via = 'key:' + cand[0].pub.keyid.hex()
             else:
                 continue
